@@ -270,3 +270,97 @@ class written_file_is_the_serialisation_with_the_same_options:
         return dict(regions=regs, fmt=fmt, opts=opts)
     call = lambda fmt, regions, opts: write_with(fmt, regions, DEST, opts)
     post = {'content': lambda fmt, regions, opts: text_equal(content_of(DEST), serialize_with(fmt, regions, opts))}
+
+
+# ---------------------------------------------------------------------------- the public front doors hand everything on
+# Region.write / Region.serialize / Regions.write / Regions.serialize / Regions.read / Regions.parse go through the registry; what
+# they produce must be what the format's own function produces for the same regions and the same options.
+def _import_io():
+    from regions.io.ds9 import connect as _c1          # noqa: F401  (importing registers readers, writers and identifiers)
+    from regions.io.crtf import connect as _c2         # noqa: F401
+    from regions.io.fits import connect as _c3         # noqa: F401
+    from regions.io.ds9 import read as _r1, write as _w1     # noqa: F401
+    from regions.io.crtf import read as _r2, write as _w2    # noqa: F401
+    from regions.io.fits import read as _r3, write as _w3    # noqa: F401
+
+
+def front_serialize(kind, regs, fmt, opts):
+    _import_io()
+    from regions.core.regions import Regions
+    if kind == 'region':
+        return regs[0].serialize(format=fmt, **opts)
+    return Regions(regs).serialize(format=fmt, **opts)
+
+
+def front_write(kind, regs, fmt, opts, how):
+    _import_io()
+    from regions.core.regions import Regions
+    name = DEST if how == 'format' else 'out' + {'ds9': '.reg', 'crtf': '.crtf'}[fmt]
+    kw = dict(opts)
+    if how == 'format':
+        kw['format'] = fmt
+    if kind == 'region':
+        regs[0].write(name, overwrite=True, **kw)
+    else:
+        Regions(regs).write(name, overwrite=True, **kw)
+    return content_of(name)
+
+
+FRONT = {'ds9': {'precision': 3}, 'crtf': {'coordsys': 'galactic', 'fmt': '.3f', 'radunit': 'arcmin'}}
+
+
+@contract('regions/core/core.py::Region.serialize', props=['C14', 'C09', 'C11', 'C13'])
+class front_doors_serialize_like_the_format_function:
+    cases = {k + '-' + f: {'kind': k, 'fmt': f} for k in ('region', 'regions') for f in ('ds9', 'crtf')}
+
+    def setup(B, kind='region', fmt='ds9'):
+        regs = [mk(B, 'circle', 'g0', 'fk5', {'text': 'a'})] + ([mk(B, 'ellipse', 'g1', 'fk5')] if kind == 'regions' else [])
+        for r in regs:
+            for nm in ('radius', 'width', 'height'):
+                if hasattr(r, nm):
+                    B.assume(getattr(r, nm).to_value('rad') > 0)
+        return dict(kind=kind, regs=regs, fmt=fmt, opts=FRONT[fmt])
+    call = lambda kind, regs, fmt, opts: front_serialize(kind, regs, fmt, opts)
+    post = {'same_text_as_the_serialiser_with_the_same_options': lambda regs, fmt, opts, result: text_equal(result, serialize_with(fmt, regs, opts))}
+
+
+@contract('regions/core/core.py::Region.write', props=['C14', 'C09', 'C11'])
+class front_doors_write_like_the_format_function:
+    """with the format given, or inferred from the file name: the file holds the serialisation with the caller's options"""
+    cases = {k + '-' + f + '-' + h: {'kind': k, 'fmt': f, 'how': h} for k in ('region', 'regions') for f in ('ds9', 'crtf') for h in ('format', 'extension')}
+
+    def setup(B, kind='region', fmt='ds9', how='format'):
+        regs = [mk(B, 'circle', 'g0', 'fk5', {'text': 'a'})] + ([mk(B, 'ellipse', 'g1', 'fk5')] if kind == 'regions' else [])
+        for r in regs:
+            for nm in ('radius', 'width', 'height'):
+                if hasattr(r, nm):
+                    B.assume(getattr(r, nm).to_value('rad') > 0)
+        return dict(kind=kind, regs=regs, fmt=fmt, opts=FRONT[fmt], how=how)
+    call = lambda kind, regs, fmt, opts, how: front_write(kind, regs, fmt, opts, how)
+    post = {'file_is_the_serialisation_with_the_same_options': lambda regs, fmt, opts, result: text_equal(result, serialize_with(fmt, regs, opts))}
+
+
+def front_parse(fmt, text, how):
+    _import_io()
+    from regions.core.regions import Regions
+    mod = {'ds9': 'regions/io/ds9/read.py::_parse_ds9', 'crtf': 'regions/io/crtf/read.py::_parse_crtf'}[fmt]
+    stub(mod, lambda region_string, **kw: ('PARSED', region_string, sorted(kw.items())))
+    if how == 'parse':
+        return Regions.parse(text, format=fmt)
+    name = 'in' + {'ds9': '.reg', 'crtf': '.crtf'}[fmt]
+    preexisting(name, text)
+    return Regions.read(name) if how == 'read-extension' else Regions.read(name, format=fmt)
+
+
+@contract('regions/core/regions.py::Regions.parse', props=['C14', 'C10'])
+class front_doors_read_with_the_format_function:
+    """Regions.parse / Regions.read hand the text (of the file) to the parser of the format, given or inferred from the extension"""
+    cases = {f + '-' + h: {'fmt': f, 'how': h} for f in ('ds9', 'crtf') for h in ('parse', 'read-format', 'read-extension')}
+
+    def setup(B, fmt='ds9', how='parse'):
+        text = {'ds9': '# Region file format: DS9 astropy/regions\nimage\ncircle(1,2,3)\n', 'crtf': '#CRTFv0\ncircle[[1pix, 2pix], 3pix], coord=image\n'}[fmt]
+        return dict(fmt=fmt, text=text, how=how)
+    call = lambda fmt, text, how: front_parse(fmt, text, how)
+    # the CRTF file reader checks the '#CRTF' signature line itself and hands the remainder to the parser
+    post = {'parser_received_the_text': lambda fmt, how, text, result: result[0] == 'PARSED' and result[1] == (
+        text[text.index('\n') + 1:] if (fmt == 'crtf' and how != 'parse') else text)}
